@@ -7,7 +7,7 @@ wt=$(mktemp -d /tmp/seedrun.XXXXXX); rmdir $wt
 git -C /repo worktree add -q --detach $wt HEAD || exit 9
 for id in "$@"; do
   git -C $wt apply /verif/seeded/$id/patch.diff || { echo "$id apply failed"; continue; }
-  res=$(cd /verif && PYVC_REPO=$wt ./check $prop --tier quick 2>&1 | grep -E "VIOLATION|UNDECIDED|CHECKER|-> exit" | cut -c1-300)
+  res=$(cd /verif && PYVC_EVIDENCE=$wt/.evidence PYVC_REPO=$wt ./check $prop --tier quick 2>&1 | grep -E "VIOLATION|UNDECIDED|CHECKER|-> exit" | cut -c1-300)
   ex=$(echo "$res" | grep -o "exit [0-9]" | tail -1)
   obs=$(echo "$res" | grep -E "VIOLATION|UNDECIDED|CHECKER" | sed 's/.*obligation=//;s/.*task=/task=/' | cut -c1-110 | head -4 | tr '\n' ';')
   echo "$id check=$prop -> $ex [$obs]"
